@@ -5,6 +5,8 @@
      (2 (means ...) variances D df idxs)-> homoscedastic wrapper
      (3 max_chunk ((key means vars) ...) D draws) -> GaussianDBALScorer.score, list of (key score)
      (4 (means vars) D df idxs)         -> the direct estimator on one plate
+     (5 first_only (code ...))          -> dtype (item size in bits) of the dense array pad_ragged_arrays_to_dense_array
+                                           allocates for arrays of these dtypes; first_only = 0: the code (repair fx2)
    Scores: () = -inf, ((n d)) = finite.  Arrays are assumed rectangular (numpy arrays are). *)
 From Coq Require Import ZArith List QArith Qcanon.
 From Batchie Require Import Lib.Sexp Lib.Num Model.Unrank Model.Dbal.
@@ -53,6 +55,11 @@ Definition run_c05 (orc : oracle) (s : sexp) : sexp :=
           of_result of_ext
             (res_bind (triples_of_draw (length (fst pl)) idxs) (fun ts => Ok (direct orc D df ts pl)))
       | _, _, _, _ => bad_input
+      end
+  | SL [SZ 5; fo; codes] =>
+      match as_bool fo, as_listof (fun c => do z <- as_Z c; dt_of_code z) codes with
+      | Some fo, Some ds => of_result (fun d => SZ (dt_code d)) (pad_dtype_of fo ds)
+      | _, _ => bad_input
       end
   | _ => bad_input
   end.
